@@ -287,6 +287,56 @@ pub fn check_ops(c: &OpsCase, acc: &mut Acc, record: bool) -> Verdict {
 enum Case {
     Sinks(TV),
     Ops(OpsCase),
+    Blob(BlobSink),
+}
+
+/// a value of a user codec that writes a compressed block through the context, to every sink
+#[derive(Debug, Clone, Serialize, Deserialize)]
+pub struct BlobSink {
+    pub len: usize,
+    pub seed: u64,
+    pub compressible: bool,
+    pub level: u32,
+}
+
+pub fn check_blob_sinks(c: &BlobSink, acc: &mut Acc, record: bool) -> Verdict {
+    use crate::props::compressed::ZBlob;
+    let mut s = c.seed | 1;
+    let d: Vec<u8> = (0..c.len)
+        .map(|i| {
+            s ^= s << 13;
+            s ^= s >> 7;
+            s ^= s << 17;
+            if c.compressible { (i % 7) as u8 } else { s as u8 }
+        })
+        .collect();
+    let z = ZBlob(&d, flate2::Compression::new(c.level));
+    let e = |r: desert::Result<Vec<u8>>| r.map_err(|e| vcat::errinfo(&e).kind);
+    let outs = vec![
+        ("serialize(Vec<u8>)", e(desert::serialize(&z, Vec::new()))),
+        ("serialize(BytesMut)", e(desert::serialize(&z, bytes::BytesMut::new()).map(|b| b.to_vec()))),
+        ("serialize_to_bytes", e(desert::serialize_to_bytes(&z).map(|b| b.to_vec()))),
+        ("serialize_to_byte_vec", e(desert::serialize_to_byte_vec(&z))),
+        ("serialize(Recording)", e(desert::serialize(&z, vcat::Recording { bytes: vec![], calls: 0, bytewise: false }).map(|r| r.bytes))),
+        ("serialize(Recording bytewise)", e(desert::serialize(&z, vcat::Recording { bytes: vec![], calls: 0, bytewise: true }).map(|r| r.bytes))),
+    ];
+    let size = desert::serialize(&z, desert::SizeCalculator::new()).map(|s| s.size()).map_err(|e| vcat::errinfo(&e).kind);
+    if record {
+        let class = format!("sinks: compressed block through a user codec ({})", if c.compressible { "compressible" } else { "incompressible" });
+        acc.case(&class, hash_json(c), c.len >= 2);
+        if acc.wants_sample(&class) {
+            acc.sample(&class, json!({"content_bytes": c.len, "level": c.level, "frame_bytes": outs[0].1.as_ref().map(|b| b.len()).unwrap_or(0), "size_calculator": format!("{size:?}")}));
+        }
+    }
+    for (name, out) in &outs[1..] {
+        if *out != outs[0].1 {
+            return Verdict::Fail(format!("{name} differs from {} for a compressed block of {} bytes at level {}: {} vs {} bytes", outs[0].0, c.len, c.level, out.as_ref().map(|b| b.len()).unwrap_or(0), outs[0].1.as_ref().map(|b| b.len()).unwrap_or(0)));
+        }
+    }
+    match (&outs[0].1, &size) {
+        (Ok(b), Ok(n)) if b.len() == *n => Verdict::Pass,
+        (a, b) => Verdict::Fail(format!("SizeCalculator reports {b:?} but the stream of a compressed block ({} content bytes, level {}) is {:?} bytes", c.len, c.level, a.as_ref().map(|x| x.len()))),
+    }
 }
 
 pub fn run(cx: &Cx) -> PropResult {
@@ -309,13 +359,17 @@ pub fn run(cx: &Cx) -> PropResult {
         if drive(crate::run::tag_seed(derive_seed(cx.seed, cx.prop, shard as u64, 3), 3), &strat, n_sinks / 2, acc, &|c: &TV| to_json(&Case::Sinks(c.clone())), &mut |c, a, r| check_sinks(c, a, r)) {
             return;
         }
+        let strat = (prop_oneof![3 => 0usize..300, 2 => 300usize..40_000, 1 => 32_000usize..200_000, 1 => prop::sample::select(vec![127usize, 128, 16383, 16384, 32767, 32768, 65535, 65536])], any::<u64>(), any::<bool>(), 0u32..10).prop_map(|(len, seed, compressible, level)| BlobSink { len, seed, compressible, level });
+        if drive(crate::run::tag_seed(derive_seed(cx.seed, cx.prop, shard as u64, 4), 4), &strat, cx.n(60, 3_000), acc, &|c: &BlobSink| to_json(&Case::Blob(c.clone())), &mut |c, a, r| check_blob_sinks(c, a, r)) {
+            return;
+        }
         let strat = ops_strategy();
         drive(crate::run::tag_seed(derive_seed(cx.seed, cx.prop, shard as u64, 1), 1), &strat, n_ops, acc, &|c: &OpsCase| to_json(&Case::Ops(c.clone())), &mut |c, a, r| check_ops(c, a, r));
     });
     PropResult::new(
         acc,
         "exploration",
-        "(a) generated (type, value) cases, including values whose encoding fails (non-BMP chars) and a stream of values over a six-string alphabet with DeduplicatedString and derived types (back-references, repeated header names): the same instance is serialized through serialize(Vec<u8>), serialize(BytesMut), serialize_to_bytes, serialize_to_byte_vec, a user-defined recording output and the same output fed byte by byte; all streams (or all errors) must be identical and SizeCalculator.size() must equal the length. (b) generated sequences of primitive reads (fixed-width, varints, read_bytes / skip with counts 0, remaining-2..remaining+2, usize::MAX, usize::MAX-pos, huge; read_compressed) over generated byte strings, executed on SliceInput, OwnedInput and DeserializationContext: results must agree op by op and the three must see the end of input at the same point. Non-trivial = (a) encoding >= 2 bytes or failing; (b) a sequence with a successful multi-byte read and a failing op.",
+        "(a) generated (type, value) cases, including values whose encoding fails (non-BMP chars) and a stream of values over a six-string alphabet with DeduplicatedString and derived types (back-references, repeated header names): the same instance is serialized through serialize(Vec<u8>), serialize(BytesMut), serialize_to_bytes, serialize_to_byte_vec, a user-defined recording output and the same output fed byte by byte; all streams (or all errors) must be identical and SizeCalculator.size() must equal the length; so for values of a user codec that writes a compressed block (0 - 200 000 content bytes, compressible or not, levels 0-9) through the context. (b) generated sequences of primitive reads (fixed-width, varints, read_bytes / skip with counts 0, remaining-2..remaining+2, usize::MAX, usize::MAX-pos, huge; read_compressed) over generated byte strings, executed on SliceInput, OwnedInput and DeserializationContext: results must agree op by op and the three must see the end of input at the same point. Non-trivial = (a) encoding >= 2 bytes or failing; (b) a sequence with a successful multi-byte read and a failing op.",
     )
 }
 
@@ -324,5 +378,6 @@ pub fn replay(case: &Value) -> Verdict {
     match c {
         Case::Sinks(tv) => check_sinks(&tv, &mut Acc::new(), false),
         Case::Ops(o) => check_ops(&o, &mut Acc::new(), false),
+        Case::Blob(b) => check_blob_sinks(&b, &mut Acc::new(), false),
     }
 }
